@@ -526,8 +526,67 @@ fn main() {
         report.finish(&args.out());
     }
 
+    if let Some(dir) = args.get("dump_corpus") {
+        // seed corpus for the libFuzzer targets (fuzz_step.py): the same valid + mutated cases the shards execute
+        let n = args.u64("cases", 300);
+        for e in ENTRIES {
+            let d = format!("{}/{}", dir, e);
+            std::fs::create_dir_all(&d).unwrap();
+            for i in 0..n {
+                std::fs::write(format!("{}/seed_{:05}", d, i), gen_case(e, seed, i)).unwrap();
+            }
+        }
+        std::process::exit(0);
+    }
+    if args.flag("inproc") {
+        // Interpreter mode (Miri cannot spawn processes and is about four orders of magnitude slower): the same corpus and
+        // the same oracle (panic / allocation bound), executed in this process for the listed entry points. The point
+        // of the run is the interpreter's own oracle: undefined behaviour or an invalid borrow anywhere below an entry point.
+        vcore::quiet_panics();
+        let per_entry = args.u64("cases", 40);
+        let shard = args.u64("shard", 0);
+        let budget_s = args.u64("budget_s", 240);
+        let list = args.str("entries", "udp_request,udp_response,http_request_bytes,http_get_path,http_response,http_parse_request,peer_id_client,access_list_file");
+        let case_seed = seed.wrapping_mul(1_000_003).wrapping_add(shard);
+        'outer: for i in 0..per_entry {
+            for e in list.split(',') {
+                if report.started.elapsed().as_secs() > budget_s {
+                    report.note(format!("time budget reached after {} rounds over the entry points", i));
+                    break 'outer;
+                }
+                let input = gen_case(e, case_seed, i);
+                alloc::begin();
+                let res = catch_unwind(AssertUnwindSafe(|| run_entry(e, &input, &tmp)));
+                let usage = alloc::end();
+                report.eval();
+                report.count(&format!("{}.executed", e));
+                match res {
+                    Err(pn) => {
+                        let msg = vproto::panic_text(&*pn);
+                        report.violation(&panic_signature(e, &msg), "crash", format!("panic in {}: {} (input {} bytes)", e, msg, input.len()), json!({"engine":"crash_shards","entry":e,"index":i,"case_seed":case_seed,"signature":panic_signature(e, &msg),"input":vcore::hex(&input[..input.len().min(4096)])}));
+                    }
+                    Ok((ok, past_first)) => {
+                        if ok {
+                            report.count(&format!("{}.accepted", e));
+                        }
+                        if past_first {
+                            report.nontrivial(vcore::fnv(&input));
+                        }
+                    }
+                }
+                if usage.peak > 512 * input.len() + (1 << 20) {
+                    report.violation(&format!("{}.alloc_unbounded", e), "crash", format!("peak allocation {} bytes for {} input bytes exceeds 512*len+1MiB", usage.peak, input.len()), json!({"engine":"crash_shards","entry":e,"index":i,"case_seed":case_seed,"signature":format!("{}.alloc_unbounded", e),"input":vcore::hex(&input[..input.len().min(4096)])}));
+                }
+            }
+        }
+        report.note("in-process mode: no child processes, no 2 MiB stack (aborts are the sharded mode's business)");
+        report.finish(&args.out());
+    }
+
     let per_entry = args.u64("cases", if args.thorough() { 3_000_000 } else { 120_000 });
     let chunk = args.u64("chunk", 20_000);
+    // sanitizer builds: let the children's reports reach this process's log, where the driver looks for them
+    let child_stderr = std::env::var("VERIF_CHILD_STDERR").is_ok();
     let only: Option<String> = args.get("entry").map(|s| s.to_string());
     let par = args.usize("par", 16);
     // work list of (entry, from, to)
@@ -575,7 +634,7 @@ fn main() {
                     let status = Command::new(exe)
                         .args(["--child", "--entry", &entry, "--seed", &seed.to_string(), "--from", &cursor.to_string(), "--to", &to.to_string(), "--wal", &wal, "--childout", &out, "--tmpdir", tmp])
                         .stdout(std::process::Stdio::null())
-                        .stderr(std::process::Stdio::null())
+                        .stderr(if child_stderr { std::process::Stdio::inherit() } else { std::process::Stdio::null() })
                         .status()
                         .unwrap();
                     let child_json = std::fs::read_to_string(&out).ok().and_then(|t| serde_json::from_str::<serde_json::Value>(&t).ok());
